@@ -178,6 +178,12 @@ func probeProblem(u *Universe, st *SpecTables, repo, problem string, id string) 
 			hit = hit || ok
 		}
 	}
+	if !hit && id != "C15" && (strings.Contains(problem, "package-level variable") || strings.Contains(problem, "package-level map")) {
+		// state shared between objects or calls: visible under concurrent use
+		r, ok := raceReplay(repo)
+		sb.WriteString(r)
+		hit = ok
+	}
 	if !hit && id == "C15" {
 		// state shared between objects that sequential probes do not expose
 		r, ok := raceReplay(repo)
